@@ -137,7 +137,7 @@ CLAIMED['C13'] = dict(
          'A counterexample is a concrete string, replayed against the real regex engine and an independent validity predicate. drop_leading_zeros is confirmed by '
          'CrossHair over all pairs of 1..3-digit groups and over every group string in first / inner / last position for both separators. Solver-generated members and near-misses go through recognize_ip_address / recognize_guid as a composition check.',
     note='Edge word-boundary assertions are stripped (reported in the evidence); exact-span recognition inside text is only validated on solver witnesses, not proved. '
-         'E-mail/URL/hashtag/mention/phone clauses are not covered (patterns with nested look-arounds are outside the translator). ' + NOTE_COMMON,
+         'For e-mail/URL/hashtag/mention/phone only the inclusion of well-formed layouts in the over-approximated real patterns is decided (necessary condition), plus an API composition check on solver-generated members. ' + NOTE_COMMON,
     design='§5/C13')
 
 CLAIMED['C20'] = dict(
